@@ -442,6 +442,18 @@ def calls_fail_or_return_a_reply(ctx):
             ctx.check(not can_end_without_value(cfg, f.node, explicit_none_ok=True), f'{f.qualname}:returns a reply or raises', f.node, 'every normal exit returns the reply',
                       f'{cname}.{meth} can end without returning a reply (a handler that does not re-raise / a deleted return): the driver gets None as the answer', f)
             if meth == 'communicate':
+                # the returned reply is what was read from the device for this command (StringIO: decoded)
+                rets = [r for r in body_walk(f.node) if isinstance(r, ast.Return) and r.value is not None and not (isinstance(r.value, ast.Constant) and r.value.value is None)]
+                prov = []
+                for r in rets:
+                    os_ = origins(r.value, f.node) if isinstance(r.value, ast.Name) else [r.value]
+                    prov += [src(o) for o in os_]
+                txt = ' '.join(prov)
+                okp = bool(rets) and ('readline' in txt or 'readbytes' in txt or 'getFullReply' in txt or '.decode(' in txt)
+                if cname == 'StringIO':
+                    okp = okp and '.decode(' in txt
+                ctx.check(okp, f'{f.qualname}:returns the reply read for this command', f.node, f'returned value comes from {txt[:80]}',
+                          f'{cname}.communicate does not return the (decoded) line read from the device: found {prov or "no return with a value"}', f)
                 chk = [i for c in calls_in(f.node) if call_attr(c) == 'check_connection' for i in cfg.node_of(c)]
                 snd = [i for c in calls_in(f.node) if call_attr(c) == 'send' for i in cfg.node_of(c)]
                 ctx.check(bool(chk) and bool(snd) and all(cfg.dominates(chk, i) for i in snd), f'{f.qualname}:connection checked before sending', f.node,
